@@ -973,6 +973,46 @@ func Eval(t *Term, env map[string]uint64) (uint64, bool) {
 	return r.C, true
 }
 
+// Subst rebuilds t with variables replaced according to bind (var term -> replacement),
+// re-applying constant folding. memo caches results by term id for this binding set.
+func (c *Ctx) Subst(t *Term, bind map[*Term]*Term, memo map[int]*Term) *Term {
+	if r, ok := memo[t.ID]; ok {
+		return r
+	}
+	var r *Term
+	switch t.Op {
+	case OpConst:
+		r = t
+	case OpVar:
+		if b, ok := bind[t]; ok {
+			r = b
+		} else {
+			r = t
+		}
+	default:
+		changed := false
+		args := make([]*Term, len(t.Args))
+		for i, a := range t.Args {
+			args[i] = c.Subst(a, bind, memo)
+			if args[i] != a {
+				changed = true
+			}
+		}
+		if !changed {
+			r = t
+		} else if t.Op == OpApp {
+			r = c.App(t.Name, t.Kind, t.W, args...)
+		} else {
+			r = c.rebuild(t, args)
+			if r == nil {
+				r = t
+			}
+		}
+	}
+	memo[t.ID] = r
+	return r
+}
+
 func (c *Ctx) rebuild(x *Term, a []*Term) *Term {
 	switch x.Op {
 	case OpNot:
